@@ -237,11 +237,14 @@ def cases(draw):
     elif kind == 7: reqs = persistent
     elif kind == 8: reqs = persistent | (1 << draw(st.integers(0, n - 1)))
     else: reqs = draw(st.integers(0, full))
-    en = int(draw(st.integers(0, 3)) != 0) if has_en else 1
-    rst = int(draw(st.integers(0, 23)) == 0)
+    # written so that the shrinker's preferred draw (0) means en=1 / no reset
+    en = int(draw(st.integers(0, 3)) != 3) if has_en else 1
+    rst = int(draw(st.integers(0, 23)) == 23)
     return [reqs, en, rst]
 
-  hist = draw(st.lists(step(), min_size=1, max_size=48))
+  # lists() on its own favours short lists; fairness needs >= nreqs advancing cycles
+  lo = draw(st.sampled_from([1, 1, 4, 12, 24, 40]))
+  hist = draw(st.lists(step(), min_size=lo, max_size=64))
   rseed = draw(st.integers(0, 7))
   return {"cls": cls, "n": n, "rseed": rseed, "hist": hist}
 
@@ -269,7 +272,7 @@ def run_shard(ctx):
     return
 
   @seed(ctx.hseed())
-  @ctx.settings(ctx.n(4800, 160000))
+  @ctx.settings(ctx.n(8000, 200000))
   @given(cases())
   def t(case):
     if ctx.out_of_time():
